@@ -342,7 +342,7 @@ NumberAny   == \E o \in Orders : Number(o)
 SubmitAny   == \E j \in Live : Submit(j, FaithfulRec(j))
 EndServiceAny == \E ups \in { UNION { FaithfulUploads(j) : j \in Live } } : EndService(ups)
 
-Next ==
+BuildStep ==
   \/ NewJobAny
   \/ \E c, p \in Jobs : Depend(c, p)
   \/ \E j \in Jobs : DeclareGroup(j)
@@ -351,6 +351,8 @@ Next ==
   \/ CommandAny
   \/ \E r \in JF, e \in Exts : AddExt(r, e)
   \/ \E r \in Res, d \in Dests : WriteOutput(r, d)
+
+RunStep ==
   \/ NumberAny
   \/ StartLocal
   \/ \E j \in Jobs, ok \in BOOLEAN : RunLocal(j, ok)
@@ -359,6 +361,8 @@ Next ==
   \/ StartService("/L", "R:")
   \/ SubmitAny
   \/ EndServiceAny
+
+Next == BuildStep \/ RunStep
 Spec == Init /\ [][Next]_vars
 
 \* =============================================================================================
@@ -446,11 +450,13 @@ Phys(q, f) == UNION { Phys1(q, w) : w \in Addr(q, f) }
 
 Wellformed == \A q \in Submitted : ShapeOk(q) /\ \A ik \in RefPos(q) : Len(sub[q].cmds[ik[1]][ik[2]].words) = 1
 
+\* the files the commands of q address (every other file has Phys = {})
+FilesOf(q) == UNION { ReadFiles(cmd[q][p[1]][p[2]].r) : p \in RefPos(q) }
 \* within a job, a resource has one local path ...
-C18_OnePath == Wellformed => \A q \in Submitted : \A f \in Files : Cardinality(Phys(q, f)) <= 1
+C18_OnePath == Wellformed => \A q \in Submitted : \A f \in FilesOf(q) : Cardinality(Phys(q, f)) <= 1
 \* ... and distinct resources have distinct local paths
 C18_DistinctLocal ==
-  Wellformed => \A q \in Submitted : \A f, g \in Files : f # g => Phys(q, f) \cap Phys(q, g) = {}
+  Wellformed => \A q \in Submitted : \A f, g \in FilesOf(q) : f # g => Phys(q, f) \cap Phys(q, g) = {}
 
 \* the job-to-job transfer of file f consumed by c: an input of c that lands where c's command reads f, whose
 \* source is the destination of an output of the producer taken from where the producer's command writes f
